@@ -96,13 +96,19 @@ static std::string handle(const std::vector<std::string>& a) {
             Position pos = TextIO::readFEN(vFenOf(a, 1, a.size()));
             bool inChk = MoveGen::inCheck(pos);
             MoveList ps; MoveGen::pseudoLegalMoves(pos, ps);
-            std::string L;
-            for (int i = 0; i < ps.size; i++)
+            std::string L, G;
+            for (int i = 0; i < ps.size; i++) {
                 L += MoveGen::isLegal(pos, ps[i], inChk) ? '1' : '0';
-            if (ps.size == 0) L = "-";
+                G += MoveGen::givesCheck(pos, ps[i]) ? '1' : '0';
+            }
+            if (ps.size == 0) { L = "-"; G = "-"; }
             MoveList rm; MoveGen::pseudoLegalMoves(pos, rm); MoveGen::removeIllegal(pos, rm);
+            MoveList ev; if (inChk) MoveGen::checkEvasions(pos, ev);
+            MoveList cp; MoveGen::pseudoLegalCaptures(pos, cp);
+            MoveList cc; MoveGen::pseudoLegalCapturesAndChecks(pos, cc);
             std::ostringstream os;
-            os << (inChk ? 1 : 0) << " P " << mvs(ps) << " L " << L << " R " << mvs(rm);
+            os << (inChk ? 1 : 0) << " P " << mvs(ps) << " L " << L << " G " << G << " R " << mvs(rm)
+               << " E " << mvs(ev) << " C " << mvs(cp) << " K " << mvs(cc);
             std::string s = os.str(), t;
             for (char c : s) if (!(c == ' ' && !t.empty() && t.back() == ' ')) t += c;
             while (!t.empty() && t.back() == ' ') t.pop_back();
